@@ -52,9 +52,16 @@ structure Pending where
 
 def evalSock (p : Pending) (glob : Oracle) (obsToks : List String) : String :=
   let ps := parseSock p.toks
-  let sc : Scenario := { app := ps.app, events := ps.events }
   let ora : Oracle := { urls := glob.urls ++ p.ora.urls, pages := glob.pages ++ p.ora.pages,
                         json := glob.json ++ p.ora.json, misc := p.ora.misc }
+  -- a JSON document is given by its source text; what writeJson() sends is QJsonDocument's
+  -- serialisation of it, which the harness reports as an oracle value
+  let js (op : ApiOp) : ApiOp := match op with
+    | .json doc c => .json ((ora.json.find? (·.1 == doc)).map (·.2) |>.getD MISS) c
+    | o => o
+  let app : App := { onHp := ps.app.onHp.map js, onRr := ps.app.onRr.map js, onRcf := ps.app.onRcf.map js,
+                     onBw := ps.app.onBw.map js, onDc := ps.app.onDc.map js }
+  let sc : Scenario := { app := app, events := ps.events.map fun e => match e with | .api o => .api (js o) | e => e }
   let env := ora.env
   let mlog := (Scenario.run env sc).log
   let crashed := obsToks.contains "crash"
